@@ -1,5 +1,5 @@
 (* C08 — soundness of the verified checkers moments_ok / nd_moments_ok / inside_box (Model/LocalGrids.v). *)
-From Coq Require Import ZArith List QArith Qabs Qcanon Bool Arith Lia Lra.
+From Coq Require Import ZArith List QArith Qabs Qcanon Bool Arith Lia Lqa.
 From SG Require Import Base.QcUtil Model.Tensor Model.LocalGrids Proofs.TensorRule Proofs.LocalGridsBase.
 Import ListNotations.
 Open Scope Qc_scope.
